@@ -154,16 +154,24 @@ def r22a(ctx):
         # identifier test: f.ident compared with a constant, dominating every predicate and field_name
         tests = [(i, t) for i, t in cfg.calls(b) if last(cfg.callee(t)) in ("eq", "ne") and "Ident" in (cfg.callee_full(t) or "")
                  and "PartialEq<&str>" in (cfg.callee_full(t) or "")]
-        okt = len(tests) == 1 and last(cfg.callee(tests[0][1])) == idtest
+        okt = len(tests) == 1
         if okt:
-            c = chase(b, tests[0][1]["a"][0])
-            okt = c[0] == "param" and c[1] == 1 and c[2][:1] == (".ident",)
+            # the compared identifier is the field's own (`&f.ident`, `f.ident.as_ref()?`, ...), the other side a constant
+            pl0 = cfg.op_place(tests[0][1]["a"][0])
+            reads0 = cfg.backward_slice(b, [pl0[0]])[2] if pl0 else set()
+            okt = (1, ".ident") in reads0
             k = chase(b, tests[0][1]["a"][1])
             okt = okt and k[0] == "const"
-            dom = cfg.dominators(b)
             later = [i for i, t in cfg.calls(b) if (cfg.callee(t) or "").startswith(DT)]
+            sws_ = cfg.bool_switches(b, cfg.derived_locals(b, [tests[0][1]["d"][0]]))
+            is_ne = last(cfg.callee(tests[0][1])) == "ne"
             if idtest == "ne":
-                okt = okt and all(tests[0][0] in dom.get(i, ()) for i in later)
+                # the generator works on the field only when it is NOT the id: every predicate / field_name call is cut
+                # by the `ident != ID` edge (spelled `name != DB_ID` or `if name == DB_ID { return None }`)
+                permit = [sw_["true_edge"] if is_ne else sw_["false_edge"] for sw_ in sws_]
+                okt = okt and bool(permit) and all(cfg.find_path(b, [0], [i], removed_edges=permit) is None for i in later)
+            else:
+                okt = okt and bool(sws_)
         ctx.ob("R22a", gen + ":db_id-test", okt,
                "f.ident %s <constant> decides first whether the field is the id" % ("!=" if idtest == "ne" else "==") if okt else
                "%s: the identifier test against the id constant is missing or not first" % gen, b.where)
